@@ -152,7 +152,7 @@ impl Run {
         w.set_clock(0, 0);
         if !r.ok {
             out.emit(&json!({"act":"reset","sys":"cw4","run":run_no,"cfg":cfgv,"ok":false,"panic":r.panic,"err":r.err,"now":w.now(),"out":[],"anom":[],
-                "obs":{"members":{"a1":-1,"a2":-1,"a3":-1},"total":0,"listed":[],"admin":"none","hooks":[],"stake":{"a1":0,"a2":0,"a3":0},
+                "obs":{"members":{"a1":-1,"a2":-1,"a3":-1},"total":0,"nlisted":0,"listed":[],"admin":"none","hooks":[],"stake":{"a1":0,"a2":0,"a3":0},
                        "claims":{"a1":[],"a2":[],"a3":[]},"held":0,"ubal":{"a1":0,"a2":0,"a3":0}}}));
             return None;
         }
@@ -189,7 +189,8 @@ impl Run {
         let mut listed = vec![];
         let mut cursor: Option<String> = None;
         loop {
-            let r: MemberListResponse = w.smart(&self.c, &cw4_group::msg::QueryMsg::ListMembers { start_after: cursor.clone(), limit: Some(30) }).unwrap();
+            // small pages on purpose: "the listed members" are what a client gets walking the listing
+            let r: MemberListResponse = w.smart(&self.c, &cw4_group::msg::QueryMsg::ListMembers { start_after: cursor.clone(), limit: Some(2) }).unwrap();
             if r.members.is_empty() {
                 break;
             }
@@ -197,11 +198,14 @@ impl Run {
             for m in r.members {
                 listed.push(json!({"a": w.name_of(&m.addr), "w": self.wdown(Some(m.weight), anom)}));
             }
+            if listed.len() > 50 {
+                break;
+            }
         }
         let admin: AdminResponse = w.smart(&self.c, &cw4_group::msg::QueryMsg::Admin {}).unwrap();
         let hooks: HooksResponse = w.smart(&self.c, &cw4_group::msg::QueryMsg::Hooks {}).unwrap();
         let mut o = json!({
-            "members": Value::Object(members), "total": self.wdown(Some(total.weight), anom), "listed": listed,
+            "members": Value::Object(members), "total": self.wdown(Some(total.weight), anom), "nlisted": listed.len(), "listed": listed,
             "admin": admin.admin.map(|a| w.name_of(&a)).unwrap_or_else(|| "none".into()),
             "hooks": hooks.hooks.iter().map(|h| w.name_of(h)).collect::<Vec<_>>(),
             "stake": {"a1":0,"a2":0,"a3":0}, "claims": {"a1":[],"a2":[],"a3":[]}, "held": 0, "ubal": {"a1":0,"a2":0,"a3":0},
@@ -455,8 +459,17 @@ pub fn random_run(rng: &mut Rng, run_no: u64, len: usize, out: &mut Out) {
             35..=44 if run.stake => json!({"act":"claim","by":who,"args":{}}),
             35..=44 => json!({"act":"update_members","by":adm,"args":{"add":[{"a":who,"w":rng.range(0, top_w)}],"remove":[]}}),
             45..=52 => json!({"act":"update_admin","by":adm,"args":{"new":rng.pick(&["ad","ad2","ad2","none"])}}),
-            53..=62 => json!({"act":"add_hook","by":adm,"args":{"hook":rng.pick(&["h1","h2"])}}),
-            63..=67 => json!({"act":"remove_hook","by":adm,"args":{"hook":rng.pick(&["h1","h2"])}}),
+            53..=62 => {
+                let h = *rng.pick(&["h1", "h2"]);
+                let by = if rng.chance(1, 6) { h.to_string() } else { adm.clone() };
+                json!({"act":"add_hook","by":by,"args":{"hook":h}})
+            }
+            63..=67 => {
+                // also a registered hook trying to unregister itself (or the other one), and a member
+                let h = *rng.pick(&["h1", "h2"]);
+                let by = match rng.below(5) { 0 | 1 => h.to_string(), 2 => rng.pick(&["h1", "h2", "a1"]).to_string(), _ => adm.clone() };
+                json!({"act":"remove_hook","by":by,"args":{"hook":h}})
+            }
             68..=84 => json!({"act":"advance","by":"env","args":{"dh":rng.range(0,2),"dt":rng.range(0,9)}}),
             _ => json!({"act":"query","by":"env","args":{"kind":"member","addr":who,"h":run.w.h as i64}}),
         };
